@@ -38,11 +38,41 @@ static void worker(int t, int nthreads, int rounds, const std::vector<std::strin
     tr.close();
 }
 
+// readers: every thread has its own stream, reader and blocks and reads (and renders) a list of files, among them
+// files from other producers (unknown members, indefinite lengths) so that the skip / default branches run concurrently
+static void read_worker(int t, int rounds, const std::vector<std::string>* paths, std::string outp)
+{
+    vh::Trace tr;
+    tr.open(outp);
+    while (!g_go.load()) sched_yield();
+    for (int round = 0; round < rounds; round++) {
+        for (size_t k = 0; k < paths->size(); k++) {
+            const std::string& path = (*paths)[(k + t * 7) % paths->size()];
+            std::string bytes = vh::read_file(path);
+            tr.emit({{"e", "RD"}, {"file", path.substr(path.find_last_of('/') + 1)}, {"rd", vr::reader_dump(bytes)}});
+            if ((k & 7) == 0) sched_yield();
+        }
+    }
+    tr.emit({{"e", "END"}});
+    tr.close();
+}
+
 int main(int argc, char** argv)
 {
     const char* td = getenv("VERIF_TMP");
     g_tmpdir = td ? td : "/tmp";
     g_inproc_decompress = true;
+    if (argc == 6 && std::string(argv[1]) == "read") {
+        int nthreads = atoi(argv[3]), rounds = atoi(argv[4]);
+        std::vector<std::string> paths;
+        { std::ifstream in(argv[2]); std::string l; while (std::getline(in, l)) if (!l.empty()) paths.push_back(l); }
+        std::vector<std::thread> ths;
+        for (int t = 0; t < nthreads; t++)
+            ths.emplace_back(read_worker, t, rounds, &paths, std::string(argv[5]) + "." + std::to_string(t) + ".ndjson");
+        g_go.store(1);
+        for (auto& th : ths) th.join();
+        return 0;
+    }
     if (argc != 6 || std::string(argv[1]) != "run") { fprintf(stderr, "usage: thr_driver run <histories> <nthreads> <rounds> <out-prefix>\n"); return 2; }
     int nthreads = atoi(argv[3]), rounds = atoi(argv[4]);
     std::vector<std::string> lines;
